@@ -6,8 +6,12 @@ Ops (numbers separated by blanks):
 * `reset`
 * `new d span k off cap n v1..vn k off cap n v1..vn …` — a foreign message
 * `clone src dst`, `dispose h`, `make d usePool k v1..vn`, `poke h i j v`
+* `grow h i v c` — append `v` to the slice that is object `i` of `h` (new capacity `c` if it has to move)
+* `ins d pos usePool k v1..vn` — a new object at position `pos` of `d`
 
-Answer: `<recycle flags> <alias> <dump>` where the dump lists, for every live handle `< 8`, the kinds and
+* `q <op>` — the same op, answered with `<recycle flags> q` only (steps that take several lines)
+
+Answer: `<recycle flags> <alias><capalias> <dump>` where the dump lists, for every live handle `< 8`, the kinds and
 values of its objects as read through the heap. -/
 namespace Agd.Driver.C07
 open Agd.Pools Agd.Driver
@@ -35,21 +39,33 @@ def flags (fs : List Bool) : String :=
   if fs.isEmpty then "-" else String.ofList (fs.map (fun b => if b then 'R' else 'F'))
 
 def answer (s : St) (fs : List Bool) : St × String :=
-  (s, flags fs ++ " " ++ showB (anyAlias s nHandles) ++ " " ++ dump s)
+  (s, flags fs ++ " " ++ showB (anyAlias s nHandles) ++ showB (anyCapAlias s nHandles) ++ " " ++ dump s)
+
+/-- Execute one op: the new state and the recycle flags; `none` for an unknown op. -/
+def exec (s : St) : List String → Option (St × List Bool)
+  | "new" :: d :: span :: rest => some (newMsg s (nat! d) (nat! span) (parseSpecs rest.length rest), [])
+  | ["clone", a, b] => some (clone s (nat! a) (nat! b))
+  | ["dispose", h] => some (dispose s (nat! h), [])
+  | "make" :: d :: u :: k :: vs =>
+    let r := make s (nat! d) (bool! u) (nat! k) (vs.map nat!)
+    some (r.1, [r.2])
+  | ["poke", h, i, j, v] => some (poke s (nat! h) (nat! i) (nat! j) (nat! v), [])
+  | ["grow", h, i, v, c] => some (grow s (nat! h) (nat! i) (nat! v) (nat! c), [])
+  | "ins" :: d :: pos :: u :: k :: vs =>
+    let r := ins s (nat! d) (nat! pos) (bool! u) (nat! k) (vs.map nat!)
+    some (r.1, [r.2])
+  | _ => none
 
 def step (s : St) : List String → St × String
   | ["reset"] => (St.init, "ok")
-  | "new" :: d :: span :: rest =>
-    answer (newMsg s (nat! d) (nat! span) (parseSpecs rest.length rest)) []
-  | ["clone", a, b] =>
-    let r := clone s (nat! a) (nat! b)
-    answer r.1 r.2
-  | ["dispose", h] => answer (dispose s (nat! h)) []
-  | "make" :: d :: u :: k :: vs =>
-    let r := make s (nat! d) (bool! u) (nat! k) (vs.map nat!)
-    answer r.1 [r.2]
-  | ["poke", h, i, j, v] => answer (poke s (nat! h) (nat! i) (nat! j) (nat! v)) []
-  | _ => (s, "bad-op")
+  | "q" :: ws =>
+    match exec s ws with
+    | some r => (r.1, flags r.2 ++ " q")
+    | none => (s, "bad-op")
+  | ws =>
+    match exec s ws with
+    | some r => answer r.1 r.2
+    | none => (s, "bad-op")
 
 def main : IO Unit := loop step St.init
 
